@@ -653,7 +653,7 @@ func ruleC14_6(c *Ctx) {
 				return
 			}
 			// first argument from the decoder (KeyFromFileName), second from the prefix parameter
-			fromDecoder := c.An.dependsOnCall(cc.Args[0], func(x *ssa.Call) bool { return x.Call.IsInvoke() && x.Call.Method.Name() == "KeyFromFileName" })
+			fromDecoder := c.An.dependsOnCall(cc.Args[0], func(x *ssa.Call) bool { return c.An.IsFileKeyerCall(x) })
 			if !fromDecoder {
 				return
 			}
